@@ -1,5 +1,5 @@
 From Coq Require Import Arith NArith Bool Lia List.
-Require Import Canon SemTk CountTk TableProto BddBase BddIte BddCR BddSat BddCof BddCof2 BddCtor BddEval BddPaths BddPathsCount BddReach BddExport BddDot BddTerm Glue Machine Reachable.
+Require Import Canon SemTk CountTk TableProto BddBase BddIte BddCR BddSat BddCof BddCof2 BddCtor BddEval BddPaths BddPathsCount BddReach BddExport BddDot BddTerm BddTerm2 Glue Machine Reachable.
 Import ListNotations.
 Local Open Scope N_scope.
 
@@ -104,6 +104,113 @@ Section Specs.
     - eapply allle_mono; [|apply allle_maxvar]. unfold L; lia.
     - eapply allle_mono; [|apply allle_maxvar]. unfold L; lia.
     - eapply allle_mono; [|apply allle_maxvar]. unfold L; lia.
+  Qed.
+
+  (* the binary connectives are single ITE calls: same bound *)
+  Theorem bin_step_fuel_bound mr op f g rf rg :
+    reachable mr -> liveh mr f rf -> liveh mr g rg ->
+    exists bound, forall fuel, (bound <= fuel)%nat -> mstep fuel mr (HBin op f g) = None ->
+      exists s', @sext sops (store mr) s' /\ @Inv sops s' /\ storage_full node (tbl s').
+  Proof.
+    intros HR Lf Lg.
+    destruct (live_denotes nhash khash bmask cmask0 smask0 capacity cap_ok mr f rf HR Lf) as (F & tf & Vf & _).
+    destruct (live_denotes nhash khash bmask cmask0 smask0 capacity cap_ok mr g rg HR Lg) as (G & tg & Vg & _).
+    set (L := N.max (maxvar tf) (maxvar tg)).
+    exists (3 * N.to_nat (L + 1) + 3)%nat. intros fuel Hfuel Hs.
+    destruct mr as [m rs]. destruct (good_of _ HR) as (HI & HC & _). unfold liveh in *; cbn [fst snd store] in *.
+    assert (Af : allle L tf) by (eapply allle_mono; [|apply allle_maxvar]; unfold L; lia).
+    assert (Ag : allle L tg) by (eapply allle_mono; [|apply allle_maxvar]; unfold L; lia).
+    unfold Reachable.mstep, step in Hs. rewrite Lf, Lg in Hs.
+    match type of Hs with match ?X with _ => _ end = _ => destruct X as [[s1 r1]|] eqn:E; [discriminate|] end. clear Hs.
+    assert (Hst : @Stops sops (core m)).
+    { pose proof (@ite_terminates sops sok L (N.to_nat (L + 1)) fuel Hfuel (core m)) as T. unfold Term in T.
+      destruct op; cbn [apply_bin] in E; unfold apply_and, apply_or, apply_xor, apply_eq, apply_imply in E.
+      - exact (T rf rg zero tf tg Leaf HI HC Vf Vg (V_zero _) Af Ag I (mu_le L tf tg Leaf) E).
+      - exact (T rf one rg tf Leaf tg HI HC Vf (V_one _) Vg Af I Ag (mu_le L tf Leaf tg) E).
+      - exact (T rf (rneg rg) rg tf tg tg HI HC Vf (V_neg _ _ _ Vg) Vg Af Ag Ag (mu_le L tf tg tg) E).
+      - exact (T rf rg (rneg rg) tf tg tg HI HC Vf Vg (V_neg _ _ _ Vg) Af Ag Ag (mu_le L tf tg tg) E).
+      - exact (T rf rg one tf tg Leaf HI HC Vf Vg (V_one _) Af Ag I (mu_le L tf tg Leaf) E). }
+    destruct Hst as (s' & nd & Ex & HI' & Hp).
+    exists s'. splits; auto. destruct HI' as [HT _]. exact (cput_none_storage_full nhash s' nd HT Hp).
+  Qed.
+
+  (* constrain / restrict: the same -- with fuel above three times the number of variable levels, no result only if the
+     table filled up *)
+  Theorem constrain_step_fuel_bound mr f g rf rg :
+    reachable mr -> liveh mr f rf -> liveh mr g rg ->
+    exists bound, forall fuel, (bound <= fuel)%nat -> mstep fuel mr (HConstrain f g) = None ->
+      exists s', @sext sops (store mr) s' /\ @Inv sops s' /\ storage_full node (tbl s').
+  Proof.
+    intros HR Lf Lg.
+    destruct (live_denotes nhash khash bmask cmask0 smask0 capacity cap_ok mr f rf HR Lf) as (F & tf & Vf & _).
+    destruct (live_denotes nhash khash bmask cmask0 smask0 capacity cap_ok mr g rg HR Lg) as (G & tg & Vg & _).
+    set (L := N.max (maxvar tf) (maxvar tg)).
+    exists (N.to_nat (L + 1) + 1)%nat. intros fuel Hfuel Hs.
+    destruct mr as [m rs]. destruct (good_of _ HR) as (HI & HC & _). unfold liveh in *; cbn [fst snd store] in *.
+    assert (Af : allle L tf) by (eapply allle_mono; [|apply allle_maxvar]; unfold L; lia).
+    assert (Ag : allle L tg) by (eapply allle_mono; [|apply allle_maxvar]; unfold L; lia).
+    unfold Reachable.mstep, step in Hs. rewrite Lf, Lg in Hs.
+    match type of Hs with match ?X with _ => _ end = _ => destruct X as [[s1 r1]|] eqn:E; [discriminate|] end. clear Hs.
+    destruct (@constrain_terminates sops sok L (N.to_nat (L + 1)) fuel Hfuel (core m) rf rg tf tg HI HC Vf Vg Af Ag (mu2_le L tf tg) E)
+      as (s' & nd & Ex & HI' & Hp).
+    exists s'. splits; auto. destruct HI' as [HT _]. exact (cput_none_storage_full nhash s' nd HT Hp).
+  Qed.
+  Theorem restrict_step_fuel_bound mr f g rf rg :
+    reachable mr -> liveh mr f rf -> liveh mr g rg ->
+    exists bound, forall fuel, (bound <= fuel)%nat -> mstep fuel mr (HRestrict f g) = None ->
+      exists s', @sext sops (store mr) s' /\ @Inv sops s' /\ storage_full node (tbl s').
+  Proof.
+    intros HR Lf Lg.
+    destruct (live_denotes nhash khash bmask cmask0 smask0 capacity cap_ok mr f rf HR Lf) as (F & tf & Vf & _).
+    destruct (live_denotes nhash khash bmask cmask0 smask0 capacity cap_ok mr g rg HR Lg) as (G & tg & Vg & _).
+    set (L := N.max (maxvar tf) (maxvar tg)).
+    exists (3 * N.to_nat (L + 1) + 4)%nat. intros fuel Hfuel Hs.
+    destruct mr as [m rs]. destruct (good_of _ HR) as (HI & HC & _). unfold liveh in *; cbn [fst snd store] in *.
+    assert (Af : allle L tf) by (eapply allle_mono; [|apply allle_maxvar]; unfold L; lia).
+    assert (Ag : allle L tg) by (eapply allle_mono; [|apply allle_maxvar]; unfold L; lia).
+    unfold Reachable.mstep, step in Hs. rewrite Lf, Lg in Hs.
+    match type of Hs with match ?X with _ => _ end = _ => destruct X as [[s1 r1]|] eqn:E; [discriminate|] end. clear Hs.
+    destruct (@restrict_terminates sops sok L (N.to_nat (L + 1)) fuel Hfuel (core m) rf rg tf tg HI HC Vf Vg Af Ag (mu2_le L tf tg) E)
+      as (s' & nd & Ex & HI' & Hp).
+    exists s'. splits; auto. destruct HI' as [HT _]. exact (cput_none_storage_full nhash s' nd HT Hp).
+  Qed.
+
+  (* substitute and compose *)
+  Theorem subst_step_fuel_bound mr f rf v b :
+    reachable mr -> liveh mr f rf ->
+    exists bound, forall fuel, (bound <= fuel)%nat -> mstep fuel mr (HSubst f v b) = None ->
+      exists s', @sext sops (store mr) s' /\ @Inv sops s' /\ storage_full node (tbl s').
+  Proof.
+    intros HR Lf.
+    destruct (live_denotes nhash khash bmask cmask0 smask0 capacity cap_ok mr f rf HR Lf) as (F & tf & Vf & _).
+    exists (height tf + 1)%nat. intros fuel Hfuel Hs.
+    destruct mr as [m rs]. destruct (good_of _ HR) as (HI & HC & _). unfold liveh in *; cbn [fst snd store] in *.
+    unfold Reachable.mstep, step in Hs. rewrite Lf in Hs. destruct (0 <? v); [|discriminate].
+    unfold drop2 in Hs.
+    match type of Hs with match (match ?X with _ => _ end) with _ => _ end = _ => destruct X as [[[s1 m1] r1]|] eqn:E; [discriminate|] end. clear Hs.
+    destruct (@subst_terminates sops sok MS v b tf fuel (core m) mempty rf Hfuel HI (fun k r Hk => ltac:(rewrite mget_empty in Hk; discriminate)) Vf E)
+      as (s' & nd & Ex & HI' & Hp).
+    exists s'. splits; auto. destruct HI' as [HT _]. exact (cput_none_storage_full nhash s' nd HT Hp).
+  Qed.
+  Theorem compose_step_fuel_bound mr f g rf rg v :
+    reachable mr -> liveh mr f rf -> liveh mr g rg ->
+    exists bound, forall fuel, (bound <= fuel)%nat -> mstep fuel mr (HCompose f v g) = None ->
+      exists s', @sext sops (store mr) s' /\ @Inv sops s' /\ storage_full node (tbl s').
+  Proof.
+    intros HR Lf Lg.
+    destruct (live_denotes nhash khash bmask cmask0 smask0 capacity cap_ok mr f rf HR Lf) as (F & tf & Vf & _).
+    destruct (live_denotes nhash khash bmask cmask0 smask0 capacity cap_ok mr g rg HR Lg) as (G & tg & Vg & _).
+    set (L := N.max (maxvar tf) (maxvar tg)).
+    exists (3 * N.to_nat (L + 1) + 4)%nat. intros fuel Hfuel Hs.
+    destruct mr as [m rs]. destruct (good_of _ HR) as (HI & HC & _). unfold liveh in *; cbn [fst snd store] in *.
+    assert (Af : allle L tf) by (eapply allle_mono; [|apply allle_maxvar]; unfold L; lia).
+    assert (Ag : allle L tg) by (eapply allle_mono; [|apply allle_maxvar]; unfold L; lia).
+    unfold Reachable.mstep, step in Hs. rewrite Lf, Lg in Hs. unfold drop2 in Hs.
+    match type of Hs with match (match ?X with _ => _ end) with _ => _ end = _ => destruct X as [[[s1 m1] r1]|] eqn:E; [discriminate|] end. clear Hs.
+    destruct (@compose_terminates sops sok MC v L (N.to_nat (L + 1)) fuel Hfuel (core m) mempty rf rg tf tg HI HC
+                (fun k r Hk => ltac:(rewrite mget_empty in Hk; discriminate)) Vf Vg Af Ag (mu2_le L tf tg) E)
+      as (s' & nd & Ex & HI' & Hp).
+    exists s'. splits; auto. destruct HI' as [HT _]. exact (cput_none_storage_full nhash s' nd HT Hp).
   Qed.
 
   (* a handle-producing line whose arguments are all live and whose precondition holds is not skipped; what it returns: *)
@@ -487,6 +594,45 @@ Section Specs.
     destruct mr as [m rs]. open_step HR Hs m rs HI HC. rewrite Lf, Lg, Lh in Hs.
     destr Hs as [o|] eqn E. injection Hs as <- <-. exists o. split; [reflexivity|].
     eapply is_const_congr; [|exact (itec_ok _ _ _ _ _ _ _ _ _ HI HC E Vf Vg Vh)]. intro e. cbn. now rewrite Sf, Sg, Sh.
+  Qed.
+
+  (* C12, "both return": ite_constant and is_implies allocate nothing, so with fuel above the number of variable levels
+     they always yield a result, in every reachable state, whatever the operation cache holds *)
+  Theorem itec_step_returns mr f g h rf rg rh :
+    reachable mr -> liveh mr f rf -> liveh mr g rg -> liveh mr h rh ->
+    exists bound, forall fuel, (bound <= fuel)%nat -> exists o, mstep fuel mr (HItec f g h) = Some (mr, OOptBool o).
+  Proof.
+    intros HR Lf Lg Lh.
+    destruct (live_denotes nhash khash bmask cmask0 smask0 capacity cap_ok mr f rf HR Lf) as (F & tf & Vf & _).
+    destruct (live_denotes nhash khash bmask cmask0 smask0 capacity cap_ok mr g rg HR Lg) as (G & tg & Vg & _).
+    destruct (live_denotes nhash khash bmask cmask0 smask0 capacity cap_ok mr h rh HR Lh) as (H & th & Vh & _).
+    set (L := N.max (maxvar tf) (N.max (maxvar tg) (maxvar th))).
+    exists (N.to_nat (L + 1) + 1)%nat. intros fuel Hfuel.
+    destruct mr as [m rs]. destruct (good_of _ HR) as (HI & HC & _). unfold liveh in *; cbn [fst snd store] in *.
+    assert (Af : allle L tf) by (eapply allle_mono; [|apply allle_maxvar]; unfold L; lia).
+    assert (Ag : allle L tg) by (eapply allle_mono; [|apply allle_maxvar]; unfold L; lia).
+    assert (Ah : allle L th) by (eapply allle_mono; [|apply allle_maxvar]; unfold L; lia).
+    pose proof (@itec_terminates sops sok L (N.to_nat (L + 1)) fuel Hfuel (core m) rf rg rh tf tg th HI Vf Vg Vh Af Ag Ah (mu_le L tf tg th)) as Hne.
+    destruct (@itec sops fuel (core m) rf rg rh) as [o|] eqn:E; [|contradiction]. exists o.
+    unfold Reachable.mstep, step. rewrite Lf, Lg, Lh.
+    match goal with |- context[match ?X with Some _ => _ | None => _ end] => replace X with (Some o) by (symmetry; exact E) end. reflexivity.
+  Qed.
+  Theorem implies_step_returns mr f g rf rg :
+    reachable mr -> liveh mr f rf -> liveh mr g rg ->
+    exists bound, forall fuel, (bound <= fuel)%nat -> exists b, mstep fuel mr (HImplies f g) = Some (mr, OBool b).
+  Proof.
+    intros HR Lf Lg.
+    destruct (live_denotes nhash khash bmask cmask0 smask0 capacity cap_ok mr f rf HR Lf) as (F & tf & Vf & _).
+    destruct (live_denotes nhash khash bmask cmask0 smask0 capacity cap_ok mr g rg HR Lg) as (G & tg & Vg & _).
+    set (L := N.max (maxvar tf) (maxvar tg)).
+    exists (N.to_nat (L + 1) + 1)%nat. intros fuel Hfuel.
+    destruct mr as [m rs]. destruct (good_of _ HR) as (HI & HC & _). unfold liveh in *; cbn [fst snd store] in *.
+    assert (Af : allle L tf) by (eapply allle_mono; [|apply allle_maxvar]; unfold L; lia).
+    assert (Ag : allle L tg) by (eapply allle_mono; [|apply allle_maxvar]; unfold L; lia).
+    pose proof (@itec_terminates sops sok L (N.to_nat (L + 1)) fuel Hfuel (core m) rf rg one tf tg Leaf HI Vf Vg (V_one _) Af Ag I (mu_le L tf tg Leaf)) as Hne.
+    destruct (@itec sops fuel (core m) rf rg one) as [o|] eqn:E; [|contradiction]. exists (obool_eqb o (Some true)).
+    unfold Reachable.mstep, step. rewrite Lf, Lg. unfold is_implies.
+    match goal with |- context[match ?X with Some _ => _ | None => _ end] => replace X with (Some o) by (symmetry; exact E) end. reflexivity.
   Qed.
 
   Theorem implies_step_spec mr f g rf rg F G fuel mr' x :
